@@ -288,6 +288,8 @@ def execute(sim, scn):
                 return cls()
         return cls()
 
+    returned_at = {}  # request id -> instant at which its handler returned (kind ret_unserializable)
+
     class Zoo(resource.Resource):
         async def _do(self, request):
             rid = int(request.opt.uri_query[0][2:])
@@ -332,6 +334,7 @@ def execute(sim, scn):
                 return (Message(payload=b"x"), 1)
             if k == "ret_unserializable":
                 # a Message object all right, but one that cannot be put on the wire (text payload)
+                returned_at[rid] = loop.now
                 return Message(payload=SECRET + " text payload")
             if k == "wait_weak":
                 # waits for something that nothing but this very coroutine holds on to strongly (an event source
@@ -593,6 +596,28 @@ def execute(sim, scn):
                 return True
         return False
 
+    def open_exchange_at(addr, t):
+        """Was a confirmable message of the server to `addr` still unacknowledged at instant t (so that a further
+        confirmable message to that endpoint was held back by NSTART)?"""
+        if t is None:
+            return False
+        first = {}
+        for e in wire:
+            if e["src"] == srv and e["dst"] == addr and e["msg"] is not None and e["msg"]["type"] == rc.CON:
+                first.setdefault(e["msg"]["mid"], e["t"])
+        for mid, t0 in first.items():
+            if t0 > t + 1e-9:
+                continue
+            ended = False
+            for e in wire:
+                if e["src"] == addr and e["dst"] == srv and e["msg"] is not None and e["msg"]["type"] in (rc.ACK, rc.RST) \
+                        and e["msg"]["mid"] == mid:
+                    if any(d[2] and d[0] <= t + 1e-9 for d in e["deliveries"]):
+                        ended = True
+            if not ended:
+                return True
+        return False
+
     for e in wire:
         if e["src"] == srv and SECRET.encode() in e["data"]:
             sim.violation("C09/exception-text-leaked", {"t": e["t"], "datagram": e["data"].hex()[:200]})
@@ -642,7 +667,8 @@ def execute(sim, scn):
             # transport failure for the endpoint and drops what was held back for it (NSTART).  Narrow relaxation.
             sim.anomaly("response-dropped-after-give-up-towards-client", q["kind"])
             continue
-        if not distinct and q["kind"] == "ret_unserializable" and q["slow"] and q["con"] and not q.get("tcp"):
+        if not distinct and q["kind"] == "ret_unserializable" and q["slow"] and q["con"] and not q.get("tcp") and \
+                open_exchange_at(cl_addr, returned_at.get(q["id"])):
             # known finding: the message is only serialised when it is put on the wire; for a separate (confirmable)
             # response that happens after send_message returned, so the failure is not turned into a 5.00
             sim.violation("C09/unserializable-separate-response-unanswered", dict(ident))
